@@ -383,6 +383,21 @@ func work(a lib.Args) {
 	}
 
 	if a.Replay == "" {
+		// (10) the audience dimension on every endpoint: correctly signed, in-window bearers whose aud is a
+		// look-alike of this API's own audience (extends it, is a proper prefix of it, slash / case variants,
+		// lists with only look-alikes, empty entries) - and the few shapes that do contain the exact host
+		for _, rt := range routes {
+			r := rng.Fork()
+			e := envs[r.Bool()]
+			now := int64(1600000000 + r.Intn(200000000))
+			for _, av := range acc.AudienceVariants(e.Cfg.Host) {
+				x := baseFor(rt, e, now, n)
+				x.Auth = acc.WithAud(x.Auth, av)
+				add(e, now, x)
+			}
+		}
+	}
+	if a.Replay == "" {
 		// (8) scripted idempotence sequences: the same valid request twice, writes that find the store already
 		// holding exactly that value, one bearer before and after its window - each step followed by a probe of
 		// all six endpoints
